@@ -156,6 +156,7 @@ func init() {
 			c.R.Floor("C03.DB.CODEC", 4)
 			c.R.Floor("C03.DB.PERSIST-BEFORE-REPLY", 1)
 			c.R.Floor("C03.DB.EXPIRY", 1)
+			c.R.Floor("C03.DB.EXPIRY-GUARD", 1)
 			c.R.Floor("C03.DB.LOAD-ALL-OR-ERROR", 1)
 			c.R.Floor("C03.DB.KEY-AGREE", 1)
 		},
@@ -225,6 +226,7 @@ func init() {
 			c.R.Floor("C10.FILE.NAME", 3)
 			c.R.Floor("C10.FILE.PER-PROTOCOL", 1)
 			c.R.Floor("C10.FILE.SWAP", 1)
+			c.R.Floor("C10.FILE.RELOAD-COMPLETE", 1)
 			c.R.Floor("C10.FILE.ALL-OR-NOTHING", 2)
 			c.R.Floor("C10.FILE.LINE-GRAMMAR", 2)
 			c.R.Floor("C10.FILE.LOOKUP", 2)
